@@ -737,6 +737,11 @@ impl CliOptions for GetOptsOptions {
             config.set_cli().print_misformatted_file_names(true);
         }
 
+        // `max_width` goes first: the width limits given alongside it are validated against
+        // it, and that must not depend on the iteration order of the map.
+        if let Some(val) = self.inline_config.get("max_width") {
+            config.override_value("max_width", val);
+        }
         for (key, val) in self.inline_config {
             config.override_value(&key, &val);
         }
